@@ -22,9 +22,11 @@ import (
 	"sort"
 	"strings"
 	"sync"
+	"sync/atomic"
 	"time"
 
 	"github.com/fatedier/frp/pkg/msg"
+	"github.com/fatedier/frp/server"
 
 	"verif/h"
 )
@@ -110,13 +112,14 @@ type member struct {
 }
 
 type group struct {
-	c      *h.Case
-	kind   string
-	name   string
-	key    string
-	domain string
-	port   int // requested port (0 for tcp-auto)
-	real   int // port reported by the server (tcp kinds)
+	c        *h.Case
+	probeSeq atomic.Int64
+	kind     string
+	name     string
+	key      string
+	domain   string
+	port     int // requested port (0 for tcp-auto)
+	real     int // port reported by the server (tcp kinds)
 	// http / tcpmux endpoint parameters beyond the domain: route restricted to an HTTP user and / or protected by credentials
 	routeUser string
 	authUser  string
@@ -129,6 +132,26 @@ func (g *group) S() *h.Server {
 		return srvAuto
 	}
 	return srv
+}
+
+// wedged is set when a state snapshot of a server did not come back: the accessor takes the group controllers'
+// own locks, which the code holds for microseconds (the harness's gates hold them for at most ~300 ms).
+var wedged atomic.Bool
+
+// snap reads the server's state with a bounded-progress watchdog. A snapshot that cannot take the group locks for
+// 30 s means joins and leaves on that server are stuck for ever ("no ordering of joins and leaves can bring the
+// server down"); it is reported once per case and the rest of the run is cut short.
+func (g *group) snap() server.VerifSnapshot {
+	ch := make(chan server.VerifSnapshot, 1)
+	go func() { ch <- g.S().Snapshot() }()
+	select {
+	case sn := <-ch:
+		return sn
+	case <-time.After(30 * time.Second):
+		wedged.Store(true)
+		g.c.Violation("server-wedged-group-locks-never-released", "%s group %s: the server's group state could not be read for 30 s (a join or leave holds the group locks for ever); further joins and leaves on this server hang", g.kind, g.name)
+		return server.VerifSnapshot{}
+	}
 }
 
 func (g *group) bind() int {
@@ -272,7 +295,13 @@ func (g *group) probe() (who string, refused bool, err error) {
 		id, ierr := h.AskIdentOn(c, 15*time.Second)
 		return id, false, ierr
 	case "http":
+		// every other probe is a CONNECT request: the vhost HTTP port tunnels those through the same route
+		// (connectHandler -> the route's connection factory), so they are handed to members like any request
 		raw := fmt.Sprintf("GET /p HTTP/1.1\r\nHost: %s\r\n%sConnection: close\r\n\r\n", g.domain, g.authHeader("Authorization"))
+		if g.probeSeq.Add(1)%2 == 0 {
+			raw = fmt.Sprintf("CONNECT %s:80 HTTP/1.1\r\nHost: %s:80\r\n%s%s\r\n", g.domain, g.domain, g.authHeader("Proxy-Authorization"), g.authHeader("Authorization"))
+			run.Count("http_group_connect_probes", 1)
+		}
 		resp, body, rerr := h.RawHTTP(fmt.Sprintf("127.0.0.1:%d", httpPort), []byte(raw), 15*time.Second)
 		if rerr != nil {
 			return "", false, rerr
@@ -325,7 +354,7 @@ func (g *group) authHeader(name string) string {
 
 // routeRegistered reports whether the server's route table still lists this group's endpoint (http / tcpmux).
 func (g *group) routeRegistered() bool {
-	s := g.S().Snapshot()
+	s := g.snap()
 	routes := s.HTTPRoutes
 	if g.kind == "tcpmux" {
 		routes = s.TCPMuxRoutes
@@ -340,7 +369,7 @@ func (g *group) routeRegistered() bool {
 
 // snapshotMembers returns the member count (tcp, tcpmux) or names (http) the server accounts for this group.
 func (g *group) snapshotMembers() (n int, exists bool) {
-	s := g.S().Snapshot()
+	s := g.snap()
 	switch g.kind {
 	case "tcp-fixed", "tcp-auto":
 		n, exists = s.TCPGroups[g.name]
@@ -374,7 +403,7 @@ func (g *group) ledger(when string, live []*member) {
 		}
 		if g.kind == "tcp-fixed" || g.kind == "tcp-auto" {
 			if g.real != 0 {
-				if owner, used := g.S().Snapshot().TCPPorts.Used[g.real]; used && strings.HasPrefix(owner, strings.TrimSuffix(g.name, "g")) {
+				if owner, used := g.snap().TCPPorts.Used[g.real]; used && strings.HasPrefix(owner, strings.TrimSuffix(g.name, "g")) {
 					c.Violation("group-port-not-released", "%s %s: port %d still accounted to %s after the last member left", g.kind, when, g.real, owner)
 				}
 			}
@@ -451,7 +480,7 @@ func (g *group) leave(m *member) error {
 
 func waitSessionGone(g *group, rid string) bool {
 	return h.Eventually(10*time.Second, func() bool {
-		for _, s := range g.S().Snapshot().Sessions {
+		for _, s := range g.snap().Sessions {
 			if s.RunID == rid {
 				return false
 			}
@@ -474,6 +503,10 @@ func liveOf(ms []*member) []*member {
 // 1+2. sequential histories with ledger after every step
 
 func historyCase(c *h.Case) {
+	if wedged.Load() {
+		run.Inconclusive("a server wedged earlier in this run")
+		return
+	}
 	rng := c.Rng
 	g := newGroup(c, kinds[c.Idx%len(kinds)])
 	nMembers := 2 + rng.Intn(3)
@@ -614,6 +647,10 @@ func historyCase(c *h.Case) {
 // 3. join ∥ last-leave, both orders forced
 
 func raceCase(c *h.Case) {
+	if wedged.Load() {
+		run.Inconclusive("a server wedged earlier in this run")
+		return
+	}
 	rng := c.Rng
 	kind := kinds[c.Idx%len(kinds)]
 	joinerFirst := (c.Idx/len(kinds))%2 == 0 // which side is parked between lookup and mutation
@@ -732,6 +769,10 @@ func raceCase(c *h.Case) {
 // 4. a user connection taken by the group worker but not yet handed to a member while the last member leaves
 
 func handoffCase(c *h.Case) {
+	if wedged.Load() {
+		run.Inconclusive("a server wedged earlier in this run")
+		return
+	}
 	kind := []string{"tcp-fixed", "tcpmux"}[c.Idx%2]
 	g := newGroup(c, kind)
 	g.routeUser, g.authUser, g.authPass = "", "", ""
